@@ -174,6 +174,8 @@ def run(ctx: Ctx) -> None:
 
     # ---- R4
     hosts: set[str] = set()
+    slots_done: set[str] = set()
+    slots_followed: list = []
     n4 = 0
     for f in prog.functions.values():
         for c_ in walk_local(f.node):
@@ -200,6 +202,19 @@ def run(ctx: Ctx) -> None:
             ctx.ob("C16.R4", f, c_, f"ElitismStep is hosted by {t.cls.name}, which hands sub-steps the whole population", ok,
                    "" if ok else f"{t.cls.name}: {why}; elitism would only see part of the population and the best "
                                  f"individual can be lost")
+            # ... and gives every sub-step the number of slots its weight stands for when the weights are whole numbers of individuals
+            # that add up to the population (the way the builders reserve elitism / novelty slots)
+            if itf is not None and itf.fullname not in slots_done:
+                slots_done.add(itf.fullname)
+                ok5, why5 = _reserved_slots(ctx, t.cls, itf)
+                if ok5 is None:
+                    # a host that re-weights its sub-steps while it runs (feedback / adaptive combinators): fixed reserved slots are not its contract
+                    ctx.extra.setdefault("hosts_without_fixed_slots", []).append(f"{t.cls.name}: {why5}")
+                else:
+                    n4 += 1
+                    slots_followed.append(t.cls.name)
+                    ctx.ob("C16.R4", itf, itf.node, f"{t.cls.name}: weights that are whole numbers of individuals reserve exactly that many slots", ok5,
+                           "" if ok5 else why5)
             # ... and the host itself receives the previous generation: it is not placed behind another step of a sequence
             behind = None
             pp = parent(c_)
@@ -222,6 +237,34 @@ def run(ctx: Ctx) -> None:
                    "" if behind is None else f"'{norm(behind)[:70]}' runs another step first: elitism only sees what that step yields (e.g. tournament winners), "
                                              f"so the best individual of the previous generation can be lost")
     ctx.floor("C16.R4", n4, 3, "builders placing ElitismStep under a parallel combinator")
+    # ---- the number of elite slots the user configures is the one that reaches ElitismStep's weight: every call of a builder that hosts
+    # ElitismStep hands a variable named like one of the builder's parameters to that very parameter (elitism and novelty are both plain
+    # ints: passed in each other's position nothing fails, the elite count silently becomes the novelty count)
+    builders = {f.fullname: f for f in prog.functions.values() for c_ in walk_local(f.node)
+                if isinstance(c_, ast.Call) and any(isinstance(a, ast.List) and any(isinstance(e, ast.Call) and call_name(e) == "ElitismStep" for e in a.elts)
+                                                    for a in list(c_.args) + [k.value for k in c_.keywords])}
+    for b in builders.values():
+        bparams = [p_ for p_ in b.params if p_ != "self"]
+        for g in prog.functions.values():
+            for c2 in walk_local(g.node):
+                if not (isinstance(c2, ast.Call) and call_name(c2) == b.name and (isinstance(c2.func, ast.Attribute) or isinstance(c2.func, ast.Name))):
+                    continue
+                t2 = res.resolve(g, c2)
+                if b.name.startswith("__") or (t2.kind == "repo" and b not in t2.targets) or \
+                        (t2.kind != "repo" and sum(1 for h in prog.functions.values() if h.name == b.name) != 1):
+                    continue
+                n4 += 1
+                swapped = [(i, a.id, bparams[i]) for i, a in enumerate(c2.args) if i < len(bparams) and isinstance(a, ast.Name)
+                           and a.id in bparams and a.id != bparams[i]]
+                swapped += [(k.arg, k.value.id, k.arg) for k in c2.keywords if k.arg in bparams and isinstance(k.value, ast.Name)
+                            and k.value.id in bparams and k.value.id != k.arg]
+                ctx.ob("C16.R4", g, c2, f"the arguments of {b.name} arrive at the parameters they are named after", not swapped,
+                       "" if not swapped else f"'{swapped[0][1]}' is passed in the position of the parameter '{swapped[0][2]}' of {b.qualname}: the configured "
+                                              f"{swapped[0][1]} count is used as the {swapped[0][2]} count (and the other way round), so elitism does not keep the "
+                                              f"number of best individuals it was configured with")
+    if not slots_followed:
+        ctx.ob("C16.R4", None, None, "some combinator hosting ElitismStep is followed by the reserved-slot model", None,
+               "; ".join(ctx.extra.get("hosts_without_fixed_slots", []))[:300], module="geneticengine/algorithms/gp/operators")
 
 
 def _evaluated_before_use(ctx: Ctx, cls, it: FunctionInfo, tags: list, ranks: dict) -> tuple[Optional[bool], str]:
@@ -268,6 +311,50 @@ def _evaluated_before_use(ctx: Ctx, cls, it: FunctionInfo, tags: list, ranks: di
     if not set(tags) <= state["evaluated"]:
         return False, f"the evaluator is given {sorted(state['evaluated'])}, not the whole population {tags}"
     return True, ""
+
+
+def _reserved_slots(ctx: Ctx, cls, itf: FunctionInfo) -> tuple[Optional[bool], str]:
+    """point witnesses: the host's iterate interpreted (Python's own float arithmetic) for population sizes n and weights
+    [k, n - k] / [k, j, n - k - j]; every sub-step must be asked for exactly its weight.  Sizes include those where w / total * n
+    is not exact in binary floating point (49, 98, 103, 107, 161): truncating such a share loses the last reserved slot."""
+    import ast as _ast
+    from ..modelinterp import Budget, Interp, Sym, UNKNOWN
+    cases = [(4, [1, 3]), (10, [2, 8]), (10, [1, 1, 8]), (49, [1, 48]), (49, [2, 47]), (98, [1, 97]), (103, [1, 102]), (107, [1, 106]), (161, [1, 160]),
+             (55, [7, 48]), (47, [3, 44]), (49, [1, 1, 47]), (100, [10, 10, 80]), (50, [5, 0, 45])]
+    und = None
+    for n, weights in cases:
+        asked: dict = {}
+
+        def call_model(itp, call, env, args, kwargs, asked=asked):
+            nm = call_name(call)
+            if nm in ("apply", "iterate") and isinstance(call.func, _ast.Attribute) and len(args) >= 6:
+                recv = itp.ev(call.func.value, env, 9)
+                if isinstance(recv, Sym) and recv.tag.startswith("step"):
+                    asked[recv.tag] = asked.get(recv.tag, 0) + (args[5] if isinstance(args[5], int) and not isinstance(args[5], bool) else 10 ** 9)
+                    return [Sym(f"out-{recv.tag}-{i}") for i in range(args[5])] if isinstance(args[5], int) and 0 <= args[5] <= 400 else UNKNOWN
+            return None
+
+        itp = Interp(ctx.prog, cls, lambda *_: None, call_model, max_depth=5, max_traces=4)
+        itp.on_start = asked.clear
+        p = itf.params
+        env = {"self": Sym("self"), p[1]: Sym("problem"), p[2]: Sym("evaluator"), p[3]: Sym("representation"), p[4]: Sym("random"),
+               p[5]: [Sym(f"i{j}") for j in range(n)], p[6]: n, p[7]: 0, "self.steps": [Sym(f"step{j}") for j in range(len(weights))],
+               "self.weights": list(weights)}
+        try:
+            runs = itp.run(itf, env)
+        except Budget:
+            und = und or "too many interpretations"
+            continue
+        if len(runs) != 1 or runs[0][2] or any(e.kind == "raise" for e in runs[0][0]):
+            und = und or (runs[0][2][0] if runs and runs[0][2] else "the model does not follow the host's iterate")
+            continue
+        got = [asked.get(f"step{j}", 0) for j in range(len(weights))]
+        if got != list(weights):
+            j = next(i for i, (a, b) in enumerate(zip(got, weights)) if a != b)
+            return False, (f"with a population of {n} and weights {weights} sub-step {j + 1} is asked for {got[j]} individual(s), its weight reserves {weights[j]} "
+                           f"(requested sizes {got}): " + ("the reserved elitism slot disappears and the best individual is not carried over" if got[j] < weights[j] else
+                                                          "the slots are not the ones the weights stand for"))
+    return (None, und) if und else (True, "")
 
 
 def _passes_whole(ctx: Ctx, cls, itf: FunctionInfo) -> tuple[Optional[bool], str]:
